@@ -11,7 +11,7 @@ from . import c01, c02
 from .. import common
 from ..schedlib import model_request, run_impl
 
-MODULES = sc.MODULES + ["Props.C02", "Props.C03Run", "Props.C05Run", "Props.C04Run"]
+MODULES = sc.MODULES + ["Props.C02", "Props.C03Run", "Props.C05Run", "Props.C04Run", "Connect", "ConnectLemmas"]
 GEN_OBLIGATIONS = sc.GEN_OBLIGATIONS
 THEOREM_DEPS = ["C04Run"]
 
@@ -79,6 +79,14 @@ def run(ctx, res):
     for s, impl, m in out:
         res.count("ring_resolved", s["ring"]["resolved"])
         res.count("ring_mode", s["ring"]["mode"])
+    # connect-phase cycles (initial pulls / metadata rules that wait for each other, with and without components that
+    # do connect next to the ring): reported as a circular coupling, never a hang; acyclic ones connect
+    from . import c06 as c06e
+    for _ in range(ctx.n(60, 600)):
+        spec = c06e.gen_template(ctx.rng) if ctx.rng.random() < 0.7 else c06e.gen_random(ctx.rng)
+        n = len(spec["comps"])
+        c06e.check_spec(spec, c06e.gen_orders(ctx.rng, n, 3), res)
+        res.count("connect_phase_cases")
 
 
 def search(ctx, res, divergences, broken):
@@ -98,6 +106,9 @@ def shrink(ctx, f):
 
 def replay(ctx, rp):
     case = rp.get("input") or (rp.get("diverging_case") or {}).get("case")
+    if case and case.get("comps") and "ins" in case["comps"][0]:
+        from . import c06 as c06e   # a connect-phase case
+        return c06e.replay(ctx, rp)
     impl = run_impl(case)
     o = oracle(case, impl)
     req, order = model_request(case)
